@@ -21,7 +21,9 @@ PROPERTY = "C09"
 RULE = ("seeded pairs / triples of program fragments over 1-3 modes (Gaussian gates, dagger forms, decomposable operations, "
         "loss, homodyne measurements, feed-forward of measured values within and across fragments, free parameters), second "
         "fragments built with Program(parent); call patterns list / successive / concatenated / reset+rerun / compile-then-run "
-        "/ rerun on a fresh engine, on gaussian, fock and bosonic; plus fault sequences with a raising daggered gate. "
+        "/ rerun on a fresh engine / three segments in five segmentations (middle segment without measurement, feed-forward "
+        "from the first into the third) / a second engine running (and resetting) the same program objects in between, on "
+        "gaussian, fock and bosonic; plus fault sequences with a raising daggered gate. "
         "non-trivial = the second fragment acts on a state the first left non-vacuum and >= 1 daggered or decomposed "
         "operation is applied; distinct = rounded fragments + backend.")
 ASSUMPTIONS = [
@@ -30,7 +32,8 @@ ASSUMPTIONS = [
     "fock comparisons at cutoff 6 with identical call sequences, so equality is exact (1e-9)",
 ]
 REQUIRED_MONITORS = ["compose:list-vs-successive", "compose:vs-concatenated", "reset:like-fresh", "snapshot:run",
-                     "snapshot:compile", "rerun:fresh-engine", "fault:p0-restored", "stream:equal"]
+                     "snapshot:compile", "rerun:fresh-engine", "fault:p0-restored", "stream:equal",
+                     "compose3:segmentations-agree", "interleave:other-engine-does-not-interfere"]
 
 ONE = ["Dgate", "Sgate", "Rgate", "Xgate", "Zgate", "Pgate", "Fouriergate", "LossChannel"]
 TWO = ["BSgate", "S2gate", "CXgate", "CZgate", "MZgate"]
@@ -88,9 +91,38 @@ def gen_case(rng, backend):
     n = int(rng.integers(1, 4))
     A, mA = gen_fragment(rng, n, [])
     B, mB = gen_fragment(rng, n, mA if rng.random() < 0.7 else [])
-    pattern = str(rng.choice(["compose", "compose", "reset", "compile", "rerun"]))
+    pattern = str(rng.choice(["compose", "compose", "reset", "compile", "rerun", "compose3", "interleave"]))
     case = {"n": n, "A": A, "B": B, "backend": backend, "pattern": pattern,
             "conf": {"cutoff_dim": 6} if backend == "fock" else {}}
+    def feed_forward(frag, measured_in_A):
+        # make sure an outcome of the first fragment is used in this one (before any re-measurement of that mode)
+        src = int(rng.choice(measured_in_A))
+        tgt = int(rng.choice([k for k in range(n) if k != src]))
+        frag.insert(0, {"op": str(rng.choice(["Xgate", "Zgate", "Dgate", "Rgate"])), "p": [0.1, 0.4][:1], "m": [tgt], "dag": False,
+                        "mpar": {"mode": src, "scale": float(rng.choice([0.5, -0.3, 0.2]))}})
+        if frag[0]["op"] == "Dgate":
+            frag[0]["p"] = [0.1, 0.4]
+
+    if pattern in ("compose3", "interleave") and rng.random() < 0.7:
+        if n == 1:
+            n = case["n"] = 2
+        if not mA:
+            mm = int(rng.integers(n))
+            A.append({"op": "MeasureHomodyne", "p": [0.0], "m": [mm]})
+            mA = [mm]
+        case["ff"] = True
+    if pattern == "compose3":
+        # three segments; the middle one often without any measurement, the last one feeding forward outcomes of the first
+        if rng.random() < 0.6:
+            case["B"], mB = gen_fragment(rng, n, mA, allow_meas=False)
+            mB = list(mA)
+        case["C"], _ = gen_fragment(rng, n, sorted(set(mA) | set(mB)) if rng.random() < 0.85 else [])
+        if case.get("ff"):
+            feed_forward(case["C"], mA)
+    if pattern == "interleave":
+        case["other"] = str(rng.choice(["run", "run+reset", "run-twice"]))
+        if case.get("ff"):
+            feed_forward(case["B"], mA)
     if pattern in ("compile", "rerun") and rng.random() < 0.5:
         # free parameter in A (single-program patterns only: run(args=...) binds the names on every program
         # of a list and documents ParameterError for a program that does not have them)
@@ -158,6 +190,7 @@ class Scripted:
     def __init__(self, env):
         self.env = env
         self.occ = {}
+        self.names = {}
         self.cur = None
         self.stream = []
         self.tap = CommandTap()
@@ -168,8 +201,11 @@ class Scripted:
     def pre(self, op, reg, backend, kwargs):
         if isinstance(op, self.env["ops"].Measurement):
             key = tuple(r.ind for r in reg)
-            self.occ[key] = self.occ.get(key, 0) + 1
-            self.cur = (key, self.occ[key])
+            # occurrences are counted per simulator, so that a second engine running the same program objects in
+            # between does not shift the outcomes scripted for the first one
+            okey = (self.names.setdefault(id(backend), len(self.names)),) + key
+            self.occ[okey] = self.occ.get(okey, 0) + 1
+            self.cur = (key, self.occ[okey] + 7 * okey[0])
 
     def post(self, op, reg, backend, kwargs, res, exc):
         from ..sfutil import numeric
@@ -248,10 +284,53 @@ def run_pattern(env, case, how):
     with Scripted(env) as sc:
         eng = sf.Engine(backend, backend_options=dict(conf))
         try:
-            if how == "concat":
+            if "C" in case:
+                if how == "concat":
+                    P = build(env, n, case["A"] + case["B"] + case["C"])
+                    eng.run(P, args=args)
+                    progs = [P]
+                else:
+                    A = build(env, n, case["A"])
+                    if how == "list":
+                        B = build(env, A, case["B"])
+                        C = build(env, B, case["C"])
+                        eng.run([A, B, C], args=args)
+                    elif how == "successive":
+                        eng.run(A, args=args)
+                        B = build(env, A, case["B"])
+                        eng.run(B, args=args)
+                        C = build(env, B, case["C"])
+                        eng.run(C, args=args)
+                    elif how == "list+one":
+                        B = build(env, A, case["B"])
+                        eng.run([A, B], args=args)
+                        C = build(env, B, case["C"])
+                        eng.run(C, args=args)
+                    else:  # one+list
+                        eng.run(A, args=args)
+                        B = build(env, A, case["B"])
+                        C = build(env, B, case["C"])
+                        eng.run([B, C], args=args)
+                    progs = [A, B, C]
+            elif how == "concat":
                 P = build(env, n, case["A"] + case["B"])
                 eng.run(P, args=args)
                 progs = [P]
+            elif how in ("interleaved", "alone"):
+                # the same Program objects are run by a second engine in between (user programs may be shared by engines)
+                A = build(env, n, case["A"])
+                eng.run(A, args=args)
+                if how == "interleaved":
+                    eng2 = sf.Engine(backend, backend_options=dict(conf))
+                    eng2.run(A, args=args)
+                    if case.get("other") == "run+reset":
+                        eng2.reset()
+                    elif case.get("other") == "run-twice":
+                        eng2.reset()
+                        eng2.run(A, args=args)
+                B = build(env, A, case["B"])
+                eng.run(B, args=args)
+                progs = [A, B]
             else:
                 A = build(env, n, case["A"])
                 if how == "list":
@@ -286,7 +365,7 @@ def run_case(case, rep, env):
             # comparison between segmented and concatenated execution fails for that one reason
             kind = "bosonic-multi-segment"
         rep.violation(locus, kind, what, case, detail)
-    rep.case([rnd({k: case[k] for k in ("n", "A", "B")}, 5), backend, case["pattern"]], nontrivial(case),
+    rep.case([rnd({k: case.get(k) for k in ("n", "A", "B", "C", "other")}, 5), backend, case["pattern"]], nontrivial(case),
              sample=case if rep.evaluations % 71 == 4 else None)
     cross_ff = any("mpar" in c for c in case["B"]) and not all(
         any(x["op"] == "MeasureHomodyne" and x["m"] == [c["mpar"]["mode"]] for x in case["B"][:i])
@@ -334,6 +413,53 @@ def run_case(case, rep, env):
             V("Engine.run", "stream:vs-concatenated" + tag, "applied command streams differ between segments and the "
               "concatenated program: first difference %s" % next(((a, b) for a, b in zip(s1, s3) if a != b),
                                                                (len(s1), len(s3))).__repr__()[:300])
+        return
+
+    if pattern == "compose3":
+        hows = ["list", "successive", "concat", "list+one", "one+list"]
+        res = {h: run_pattern(env, case, h) for h in hows}
+        excs = {h: (type(r[0]).__name__ if isinstance(r[0], Exception) else None) for h, r in res.items()}
+        ff13 = any("mpar" in c and not any(x["op"] == "MeasureHomodyne" and x["m"] == [c["mpar"]["mode"]] for x in case["B"] + case["C"][:i])
+                   for i, c in enumerate(case["C"]))
+        rep.observe("compose3:%s%s" % ("middle-without-measurement" if not any(c["op"] == "MeasureHomodyne" for c in case["B"]) else "middle-measures",
+                                       "+feed-forward-1-to-3" if ff13 else ""))
+        if any(excs.values()):
+            if len(set(excs.values())) == 1:
+                rep.observe("all-patterns-raised:" + str(excs["list"]))
+                return
+            V("Engine.run", "three-segments:pattern-raises-differently" + (":feed-forward-1-to-3" if ff13 else "") + tag,
+              "three segments: %s (%s)" % (", ".join("%s: %s" % (h, excs[h] or "ok") for h in hows),
+                                           [str(r[0])[:80] for r in res.values() if isinstance(r[0], Exception)][:1]))
+            return
+        rep.monitor("compose3:segmentations-agree")
+        for h in hows[1:]:
+            d = state_diff(res["list"][0], res[h][0])
+            rep.dev("compose3." + h, d if np.isfinite(d) else 1e9, 1e-9)
+            if d > 1e-9:
+                V("Engine.run", "three-segments:%s-vs-list" % h + (":feed-forward-1-to-3" if ff13 else "") + tag,
+                  "run([A,B,C]) and the %s execution of the same three fragments end in different states (max diff %.3e)" % (h, d))
+                return
+        return
+
+    if pattern == "interleave":
+        r1, s1, _ = run_pattern(env, case, "interleaved")
+        r2, s2, _ = run_pattern(env, case, "alone")
+        e1, e2 = (type(r).__name__ if isinstance(r, Exception) else None for r in (r1, r2))
+        rep.observe("interleave:%s%s" % (case.get("other"), "+feed-forward" if cross_ff else ""))
+        if e1 or e2:
+            if e1 != e2:
+                V("Engine.run", "other-engine-interferes:exception" + tag, "run(A); run(B) on one engine: %s; the same with a second engine "
+                  "running the program object A in between (%s): %s (%s)" % (e2 or "ok", case.get("other"), e1 or "ok",
+                                                                            [str(r)[:80] for r in (r1, r2) if isinstance(r, Exception)][:1]))
+            else:
+                rep.observe("all-patterns-raised:" + str(e1))
+            return
+        rep.monitor("interleave:other-engine-does-not-interfere")
+        d = state_diff(r1, r2)
+        rep.dev("interleave", d if np.isfinite(d) else 1e9, 1e-9)
+        if d > 1e-9:
+            V("Engine.run", "other-engine-interferes:state" + tag, "run(A); run(B) on one engine ends in a different state when a second "
+              "engine runs the program object A in between (%s): max diff %.3e" % (case.get("other"), d))
         return
 
     args = case.get("args", {})
@@ -481,7 +607,7 @@ def fault_cases(env, rep, rng, ncases):
 
 
 def plan(tier, seed, scale=1.0):
-    n = int((40 if tier == "quick" else 800) * scale)
+    n = int((56 if tier == "quick" else 1100) * scale)
     return [{"n": n, "timeout": 3000} for _ in range(16)]
 
 
